@@ -34,7 +34,7 @@ type eSRef struct {
 }
 
 type eStmt struct {
-	k    string // skip seq ite loop setloc setfld setarg setarr setbuf bind copy calls
+	k    string // skip seq ite loop setloc setfld setarg setarr setbuf bind copy calls choose
 	n, m int
 	mark string
 	e    *eExpr
@@ -168,6 +168,8 @@ func (s *eStmt) tokens() string {
 	switch s.k {
 	case "skip":
 		return "skip"
+	case "choose":
+		return "choose"
 	case "seq":
 		return "seq " + s.a.tokens() + " " + s.b.tokens()
 	case "ite":
@@ -208,6 +210,8 @@ func (s *eStmt) wuffs(ind string, b *strings.Builder) {
 			s.b.wuffs(ind+"\t", b)
 		}
 		fmt.Fprintf(b, "%s}\n", ind)
+	case "choose":
+		fmt.Fprintf(b, "%schoose ch = [ch_alt]\n", ind)
 	case "loop":
 		// every loop of the fragment advances the one counter local, so that all
 		// programs terminate (the C runs execute them)
@@ -245,7 +249,7 @@ func (s *eStmt) hasWrite() bool {
 		return s.a.hasWrite() || s.b.hasWrite() || (s.e != nil && s.e.hasImpureCall())
 	case "loop":
 		return s.a.hasWrite() || s.e.hasImpureCall()
-	case "setfld", "setarr", "setbuf", "copy":
+	case "setfld", "setarr", "setbuf", "copy", "choose":
 		return true
 	case "bind":
 		return s.s.hasImpureCall()
@@ -270,7 +274,7 @@ func (s *eStmt) hasDefiniteWrite(effs []string) bool {
 		return s.a.hasDefiniteWrite(effs) || s.b.hasDefiniteWrite(effs) || s.e.callsImpure(effs)
 	case "loop":
 		return s.a.hasDefiniteWrite(effs) || s.e.callsImpure(effs)
-	case "setfld", "setarr", "setarg", "copy":
+	case "setfld", "setarr", "setarg", "copy", "choose":
 		return true
 	case "setbuf":
 		return s.s.k != "sl" || s.e.callsImpure(effs) || s.s.callsImpure(effs)
@@ -413,12 +417,12 @@ func (g *effGen) pureExpr1() *eExpr {
 }
 
 func (g *effGen) stmt(d int) *eStmt {
-	k := g.r.Intn(15)
+	k := g.r.Intn(16)
 	if d <= 0 && (k == 0 || k == 1 || k == 14) {
 		k = 2 + g.r.Intn(12)
 	}
 	// writes are rarer in pure methods (else nearly everything is rejected)
-	if g.feff == "pure" && (k == 3 || k == 5 || k == 6 || k == 8 || k == 9) && g.r.Chance(2, 3) {
+	if g.feff == "pure" && (k == 3 || k == 5 || k == 6 || k == 8 || k == 9 || k == 15) && g.r.Chance(2, 3) {
 		k = 2
 	}
 	switch k {
@@ -432,6 +436,11 @@ func (g *effGen) stmt(d int) *eStmt {
 		return &eStmt{k: "ite", e: g.cond(), a: g.stmt(d - 1), b: b}
 	case 14:
 		return &eStmt{k: "loop", e: g.cond(), a: g.stmt(d - 1)}
+	case 15:
+		if g.r.Chance(1, 2) {
+			return &eStmt{k: "choose"}
+		}
+		return &eStmt{k: "setloc", n: g.r.Intn(2), e: g.rhs()}
 	case 2, 10:
 		return &eStmt{k: "setloc", n: g.r.Intn(2), e: g.rhs()}
 	case 3:
@@ -536,6 +545,8 @@ func effTokens(ms []eMethod) string {
 func effWuffs(ms []eMethod) string {
 	var b strings.Builder
 	b.WriteString("pub struct foo?(\n\tf0 : base.u32,\n\tf1 : base.u32,\n\tarr0 : array[4] base.u8,\n\tarr1 : array[4] base.u8,\n)\n\n")
+	b.WriteString("pri func foo.ch!(x: base.u32),\n\tchoosy,\n{\n\tthis.f1 ~mod+= args.x\n}\n\n")
+	b.WriteString("pri func foo.ch_alt!(x: base.u32) {\n\tthis.f1 ~mod+= 1\n}\n\n")
 	for i, m := range ms {
 		fmt.Fprintf(&b, "pri func foo.m%d%s(x: base.u32, s: slice base.u8, t: roslice base.u8, pb: ptr base.pixel_buffer) base.u32[..= 3] {\n", i, markStr(m.eff))
 		b.WriteString("\tvar v0 : base.u32\n\tvar v1 : base.u32\n\tvar vi : base.u32\n\tvar ls : slice base.u8\n\tvar lt : roslice base.u8\n")
@@ -619,6 +630,8 @@ func effCorners() [][]eMethod {
 		out = append(out,
 			one(eff, &eStmt{k: "setfld", n: 0, e: lit(1)}),
 			one(eff, &eStmt{k: "setarg", e: lit(1)}),
+			one(eff, &eStmt{k: "choose"}),
+			one(eff, &eStmt{k: "ite", e: &eExpr{k: "arg"}, a: &eStmt{k: "choose"}, b: skip}),
 			one(eff, &eStmt{k: "loop", e: &eExpr{k: "arg"}, a: &eStmt{k: "setfld", n: 1, e: lit(5)}}),
 			one(eff, &eStmt{k: "loop", e: &eExpr{k: "fld", n: 0}, a: &eStmt{k: "loop", e: &eExpr{k: "arg"}, a: &eStmt{k: "setloc", n: 1, e: lit(5)}}}),
 			one(eff, &eStmt{k: "setarr", n: 1, m: 3, e: lit(1)}),
